@@ -653,8 +653,10 @@ PROPERTIES["C06"] = {
          "budget": {"quick": {"deadline_s": 45, "max_paths": 3000, "query_s": 8}, "thorough": {"deadline_s": 300, "max_paths": 50000, "query_s": 20}},
          "encoded": ["nano::function_t::vgrad", "function_<id>_t::do_vgrad for every registered id", "nano::function_t::{convex, strong_convexity, make}"]},
         {"engine": "sre", "harness": "C06_losses", "sources": ["C06_losses.cpp"],
-         "quick": ["loss=%s;k=2;pat=1" % l for l in _LOSSES] + ["loss=%s;k=1;pat=0" % l for l in ("mse", "mae", "m-hinge", "m-logistic", "s-classnll", "pinball")],
-         "thorough": ["loss=%s;k=%d;pat=%d" % (l, k, p) for l in _LOSSES for (k, p) in ((1, 0), (1, 1), (2, 0), (2, 1), (2, 2), (3, 1), (3, 5))],
+         "quick": ["loss=%s;k=2;pat=1" % l for l in _LOSSES] + ["loss=%s;k=1;pat=0" % l for l in ("mse", "mae", "m-hinge", "m-logistic", "s-classnll", "pinball")] +
+                  ["loss=%s;k=3;pat=3;multi=1" % l for l in _LOSSES if l.startswith("s-")],
+         "thorough": ["loss=%s;k=%d;pat=%d" % (l, k, p) for l in _LOSSES for (k, p) in ((1, 0), (1, 1), (2, 0), (2, 1), (2, 2), (3, 1), (3, 5))] +
+                     ["loss=%s;k=%d;pat=%d;multi=1" % (l, k, p) for l in _LOSSES if l.startswith("s-") for (k, p) in ((2, 3), (3, 0), (3, 3), (3, 6), (3, 7))],
          "budget": {"quick": {"deadline_s": 45, "max_paths": 3000, "query_s": 8}, "thorough": {"deadline_s": 300, "max_paths": 50000, "query_s": 20}},
          "encoded": ["nano::flatten_loss_t<...>::{value, vgrad, error} for all 17 registered losses", "nano::loss::detail::{absdiff_t, mclass_t, sclass_t}::error", "nano::pinball_loss_t"]},
         {"engine": "sre", "harness": "C06_mlobjective", "sources": ["C09_linear.cpp"],
